@@ -172,3 +172,79 @@ func EvalSparse[E constraint.Element](cs SparseSys[E], w []*big.Int) (*SparseRes
 	}
 	return res, nil
 }
+
+// ColumnsResult classifies what an (L,R,O) triple of columns violates.
+type ColumnsResult struct {
+	BadGates  []int // gate indices whose equation fails on the row values
+	BadCopies []int // wire ids whose positions do not all hold one value
+	BadPublic []int // public placeholder rows whose L differs from the public input
+}
+
+func (c *ColumnsResult) Clean() bool {
+	return len(c.BadGates) == 0 && len(c.BadCopies) == 0 && len(c.BadPublic) == 0
+}
+
+// CheckColumns evaluates the PLONK relation row by row on explicit columns:
+// gate equations on the row's own values, copy constraints (every position of a
+// wire holds the same value; unused slots and padding belong to wire 0), and
+// the public rows against pub (pub[i] is wire i, including wire 0 if public).
+func CheckColumns[E constraint.Element](cs SparseSys[E], L, R, O []*big.Int, pub []*big.Int) (*ColumnsResult, error) {
+	p := cs.Field()
+	coeffs := Coeffs[E](cs)
+	gates := cs.GetSparseR1Cs()
+	nbPub := cs.GetNbPublicVariables()
+	n := nextPow2(len(gates) + nbPub)
+	if len(L) != n || len(R) != n || len(O) != n {
+		return nil, fmt.Errorf("column length %d/%d/%d, want %d", len(L), len(R), len(O), n)
+	}
+	res := &ColumnsResult{}
+	nbWires := cs.GetNbPublicVariables() + cs.GetNbSecretVariables() + cs.GetNbInternalVariables()
+	val := make([]*big.Int, nbWires)
+	bad := make([]bool, nbWires)
+	see := func(w int, v *big.Int) {
+		if val[w] == nil {
+			val[w] = v
+		} else if val[w].Cmp(v) != 0 {
+			bad[w] = true
+		}
+	}
+	for i := 0; i < nbPub; i++ {
+		see(i, L[i])
+		see(0, R[i])
+		see(0, O[i])
+		if i < len(pub) && L[i].Cmp(pub[i]) != 0 {
+			res.BadPublic = append(res.BadPublic, i)
+		}
+	}
+	acc, t := new(big.Int), new(big.Int)
+	for j, g := range gates {
+		row := nbPub + j
+		a, b, c := L[row], R[row], O[row]
+		see(int(g.XA), a)
+		see(int(g.XB), b)
+		see(int(g.XC), c)
+		if g.Commitment != constraint.NOT {
+			continue
+		}
+		acc.Mul(coeffs[g.QL], a)
+		acc.Add(acc, t.Mul(coeffs[g.QR], b))
+		acc.Add(acc, t.Mul(coeffs[g.QO], c))
+		t.Mul(a, b)
+		acc.Add(acc, t.Mul(t, coeffs[g.QM]))
+		acc.Add(acc, coeffs[g.QC])
+		if acc.Mod(acc, p).Sign() != 0 {
+			res.BadGates = append(res.BadGates, j)
+		}
+	}
+	for i := nbPub + len(gates); i < n; i++ {
+		see(0, L[i])
+		see(0, R[i])
+		see(0, O[i])
+	}
+	for w, b := range bad {
+		if b {
+			res.BadCopies = append(res.BadCopies, w)
+		}
+	}
+	return res, nil
+}
